@@ -3,7 +3,7 @@ from common import COMMON_TRUST
 PROP = {
     "generated": ["StoreConsts"],
     "lean_modules": ["SwimVerif.Model.StoreKey", "SwimVerif.Model.Stores", "SwimVerif.Proofs.StoreKey",
-                     "SwimVerif.Proofs.Stores", "SwimVerif.Generated.StoreConsts"],
+                     "SwimVerif.Proofs.Stores", "SwimVerif.Proofs.StoresHandover", "SwimVerif.Generated.StoreConsts"],
     "engines": [
         {"name": "rocks-random", "crate": "store", "bin": "sv-c13", "machine": "c13r", "features": [],
          "cases": {"quick": 1600, "thorough": 60000}, "min_shard": 100, "timeout": 1500},
@@ -26,8 +26,10 @@ PROP = {
                   "[prefix(id), ubound(id)) iff it is a map key of lane id, so delete_range removes exactly that lane; "
                   "the in-memory node store refines the id-indexed value|map specification for every sequence of "
                   "id_for/get/put/delete/update/remove/clear/read_map, ids are stable and collision free, the node "
-                  "state survives restart and hand-over to a waiting instance (lemmas for every state; every "
-                  "choreography of three handles up to depth 6 checked exhaustively against the real store); "
+                  "state survives restart and hand-over to a waiting instance, and for every sequence of opens, polls, "
+                  "drops (cancelled opens included) and data ops a URI never has two running instances nor a running "
+                  "instance next to a handed-over state (every choreography of three handles up to depth 6 is also "
+                  "checked exhaustively against the real store); "
                   "RocksDB modelled as ordered byte maps refines "
                   "the same specification under id < 2^56 with reopen points (prefix iteration exact). Tied to both "
                   "real stores by differential execution through swimos_api::persistence (public open_rocks_store; "
